@@ -161,6 +161,12 @@ enum CallKind {
     Fmtln,
     /// one `write_all` of the whole record
     WriteAll,
+    /// a record handed over by two consecutive `write_all` calls of one thread on one long-lived
+    /// stream, cut *inside* a multi-byte character: the first part (each call's bytes must be
+    /// contiguous on their own)
+    WriteAllHead,
+    /// ... and the rest, which starts with the character's continuation bytes
+    WriteAllRest,
     /// ColorChoice::write_global(v)
     SetGlobal(u8),
     /// ColorChoice::global()
@@ -236,7 +242,19 @@ impl Scenario {
             handle_per_call.push(rng.chance(1, 2));
             locked_group.push(rng.chance(1, 6));
         }
-        Scenario { mode, short_writes: rng.chance(1, 3), handle_per_call, locked_group, threads }
+        let short_writes = rng.chance(1, 3);
+        // (drawn last so that the scenarios of earlier versions keep their meaning)
+        for t in 0..nthreads {
+            if (locked_group[t] || !handle_per_call[t]) && rng.chance(1, 4) {
+                let mut frags = record_frags(&mut rng, t, 9);
+                let ch = *rng.pick(&["\u{e9}", "\u{20ac}", "\u{6f22}", "\u{1f600}"]);
+                let at = rng.range(2, frags.len() - 2);
+                frags.insert(at, format!("s{t}{ch}{ch}q"));
+                threads[t].push(Call { kind: CallKind::WriteAllHead, frags: frags.clone() });
+                threads[t].push(Call { kind: CallKind::WriteAllRest, frags });
+            }
+        }
+        Scenario { mode, short_writes, handle_per_call, locked_group, threads }
     }
 
     fn strips(&self) -> bool {
@@ -247,6 +265,18 @@ impl Scenario {
     /// scenario's mode predicts first, the other one second (which of the two comes out is a
     /// question of mode - C08 - not of contiguity, so both are accepted).
     fn expected_record(&self, call: &Call) -> Option<[Vec<u8>; 2]> {
+        if matches!(call.kind, CallKind::WriteAllHead | CallKind::WriteAllRest) {
+            let raw = call.frags.concat().into_bytes();
+            let cut = split_point(&raw);
+            let whole = anstream::adapter::strip_bytes(&raw).into_vec();
+            let head = anstream::adapter::strip_bytes(&raw[..cut]).into_vec();
+            let (raw, stripped) = if call.kind == CallKind::WriteAllHead {
+                (raw[..cut].to_vec(), head)
+            } else {
+                (raw[cut..].to_vec(), whole[head.len().min(whole.len())..].to_vec())
+            };
+            return Some(if self.strips() { [stripped, raw] } else { [raw, stripped] });
+        }
         let raw: String = call.frags.concat();
         let raw = match call.kind {
             CallKind::Fmt | CallKind::WriteAll => raw,
@@ -267,7 +297,7 @@ impl Scenario {
             "handle_per_call": self.handle_per_call,
             "locked_group": self.locked_group,
             "threads": self.threads.iter().map(|t| t.iter().map(|c| json!({
-                "kind": match &c.kind { CallKind::Fmt => "write!".to_string(), CallKind::Fmtln => "writeln!".into(), CallKind::WriteAll => "write_all".into(), CallKind::SetGlobal(v) => format!("write_global({v})"), CallKind::GetGlobal => "global()".into() },
+                "kind": match &c.kind { CallKind::Fmt => "write!".to_string(), CallKind::Fmtln => "writeln!".into(), CallKind::WriteAll => "write_all".into(), CallKind::WriteAllHead => "write_all[head]".into(), CallKind::WriteAllRest => "write_all[rest]".into(), CallKind::SetGlobal(v) => format!("write_global({v})"), CallKind::GetGlobal => "global()".into() },
                 "fragments": c.frags,
             })).collect::<Vec<_>>()).collect::<Vec<_>>(),
         })
@@ -281,6 +311,8 @@ impl Scenario {
                     "write!" => CallKind::Fmt,
                     "writeln!" => CallKind::Fmtln,
                     "write_all" => CallKind::WriteAll,
+                    "write_all[head]" => CallKind::WriteAllHead,
+                    "write_all[rest]" => CallKind::WriteAllRest,
                     "global()" => CallKind::GetGlobal,
                     other => CallKind::SetGlobal(other.trim_start_matches("write_global(").trim_end_matches(')').parse().unwrap_or(0)),
                 };
@@ -294,6 +326,26 @@ impl Scenario {
             locked_group: v["locked_group"].as_array()?.iter().map(|b| b.as_bool().unwrap_or(false)).collect(),
             threads,
         })
+    }
+}
+
+/// Where a head/rest pair is cut: one byte into the first multi-byte character of the record
+/// (two bytes into it for records of odd length when the character has more than two bytes).
+fn split_point(raw: &[u8]) -> usize {
+    match raw.iter().position(|b| *b >= 0xc2) {
+        Some(p) => {
+            let len = match raw[p] {
+                0xc2..=0xdf => 2,
+                0xe0..=0xef => 3,
+                _ => 4,
+            };
+            if len > 2 && raw.len() % 2 == 1 {
+                p + 2
+            } else {
+                p + 1
+            }
+        }
+        None => raw.len() / 2,
     }
 }
 
@@ -324,6 +376,14 @@ fn do_call(s: &mut dyn Write, call: &Call) {
         },
         CallKind::Fmtln => writeln!(s, "{}{}", Frag(&call.frags[0]), Frags(&call.frags[1..])).unwrap(),
         CallKind::WriteAll => s.write_all(call.frags.concat().as_bytes()).unwrap(),
+        CallKind::WriteAllHead => {
+            let raw = call.frags.concat().into_bytes();
+            s.write_all(&raw[..split_point(&raw)]).unwrap()
+        }
+        CallKind::WriteAllRest => {
+            let raw = call.frags.concat().into_bytes();
+            s.write_all(&raw[split_point(&raw)..]).unwrap()
+        }
         _ => {}
     }
 }
